@@ -1126,12 +1126,22 @@ var vfC04DecodeSeeds = []string{
 	`null`, `[]`, `{}`, `{"revs":null,"parents":null}`,
 }
 
+// vfC04FuzzTB makes a violation found inside a fuzz worker visible to the driver: worker stdout is not
+// forwarded to the coordinator, only the failure message is, so the machine-readable line rides on it.
+type vfC04FuzzTB struct{ *testing.T }
+
+func (f vfC04FuzzTB) Fatalf(format string, args ...any) {
+	msg := fmt.Sprintf(format, args...)
+	j, _ := json.Marshal(map[string]any{"property": "C04", "test": "FuzzRevTree", "what": msg})
+	f.T.Fatalf("%s\nVERIF-VIOLATION %s", msg, j)
+}
+
 func FuzzVerif_C04_RevTree(f *testing.F) {
 	for _, s := range vfC04DecodeSeeds {
 		f.Add([]byte(s))
 	}
 	f.Fuzz(func(t *testing.T, in []byte) {
-		vfC04CheckDecode(t, "FuzzRevTree", nil, in)
+		vfC04CheckDecode(vfC04FuzzTB{t}, "FuzzRevTree", nil, in)
 	})
 }
 
